@@ -35,8 +35,15 @@ def ensure_repo_on_path() -> None:
 class Shim:
     """Stand-in for a module attribute such as `time` inside one redress module."""
 
-    def __init__(self, **attrs):
+    def __init__(self, _base=None, **attrs):
         self.__dict__.update(attrs)
+        self.__dict__["_base"] = _base
+
+    def __getattr__(self, name):              # only reached for names not overridden above
+        base = self.__dict__.get("_base")
+        if base is None:
+            raise AttributeError(name)
+        return getattr(base, name)
 
 
 class VClock:
